@@ -297,6 +297,9 @@ class Expander:
             elif isinstance(s, ast.If):
                 if not self._returns_structured(s.body, in_unstructured) or not self._returns_structured(s.orelse, in_unstructured):
                     return False
+            elif isinstance(s, (ast.For, ast.While)) and not in_unstructured and self._loop_convertible(s):
+                if not self._returns_structured(s.orelse, in_unstructured):
+                    return False
             elif isinstance(s, (ast.For, ast.While, ast.Try, ast.With)):
                 for sub in ('body', 'orelse', 'finalbody'):
                     if not self._returns_structured(getattr(s, sub, []) or [], True):
@@ -305,6 +308,27 @@ class Expander:
                     if not self._returns_structured(h.body, True):
                         return False
         return True
+
+    def _loop_convertible(self, loop):
+        """returns inside the loop body sit only under `if`s (not in nested loops / try / with) and the loop has no `break`
+        of its own: `return e` can become `r = e; break` with the code after the loop moved into the loop's else clause."""
+        def ok(stmts):
+            for s in stmts:
+                if isinstance(s, ast.Break):
+                    return False
+                if isinstance(s, ast.If):
+                    if not ok(s.body) or not ok(s.orelse):
+                        return False
+                elif isinstance(s, (ast.For, ast.While, ast.Try, ast.With)):
+                    if self._contains_return([s]):
+                        return False
+                    if isinstance(s, (ast.Try, ast.With)) and any(isinstance(x, ast.Break) for x in _walk_no_nested([s])):
+                        # a break of the outer loop nested in try/with: leave alone
+                        inner_loops = [y for y in _walk_no_nested([s]) if isinstance(y, (ast.For, ast.While))]
+                        if not inner_loops:
+                            return False
+            return True
+        return ok(loop.body)
 
     # ------------------------------------------------------------------ resolution of a call
     def resolve_call(self, mname, cname, fdef, call):
@@ -521,6 +545,18 @@ class Expander:
                     return None, False
                 out.append(ast.copy_location(ast.If(test=s.test, body=b or [ast.Pass()], orelse=o), s))
                 return out, br and orr
+            if isinstance(s, (ast.For, ast.While)) and self._contains_return(s.body) and self._loop_convertible(s):
+                k = list(stmts[i + 1:]) + list(cont)
+                body = self._returns_to_breaks(s.body, rname)
+                o, orr = self._convert_returns(list(s.orelse), rname, k)
+                if o is None:
+                    return None, False
+                if isinstance(s, ast.For):
+                    new = ast.For(target=s.target, iter=s.iter, body=body, orelse=o, type_comment=None)
+                else:
+                    new = ast.While(test=s.test, body=body, orelse=o)
+                out.append(ast.copy_location(new, s))
+                return out, orr
             if self._contains_return([s]):
                 return None, False
             out.append(s)
@@ -530,6 +566,22 @@ class Expander:
                 return None, False
             return out + r, rr
         return out, False
+
+    def _returns_to_breaks(self, stmts, rname):
+        out = []
+        for s in stmts:
+            if isinstance(s, ast.Return):
+                out.append(ast.copy_location(ast.Assign(targets=[ast.Name(id=rname, ctx=ast.Store())],
+                                                        value=s.value if s.value is not None else ast.Constant(None),
+                                                        lineno=s.lineno, col_offset=0), s))
+                out.append(ast.copy_location(ast.Break(), s))
+                return out
+            if isinstance(s, ast.If) and self._contains_return([s]):
+                out.append(ast.copy_location(ast.If(test=s.test, body=self._returns_to_breaks(s.body, rname) or [ast.Pass()],
+                                                    orelse=self._returns_to_breaks(s.orelse, rname)), s))
+                continue
+            out.append(s)
+        return out
 
     def _always(self, stmts, rname):
         if not stmts:
@@ -541,6 +593,8 @@ class Expander:
             return True
         if isinstance(last, ast.If):
             return bool(last.orelse) and self._always(last.body, rname) and self._always(last.orelse, rname)
+        if isinstance(last, (ast.For, ast.While)) and last.orelse:
+            return self._always(last.orelse, rname)
         return False
 
     def _drop_result_stores(self, stmts, rname):
@@ -605,11 +659,9 @@ class Expander:
             call, mode = s.test, 'value'
         elif isinstance(s, ast.If) and isinstance(s.test, ast.UnaryOp) and isinstance(s.test.op, ast.Not) and isinstance(s.test.operand, ast.Call):
             call, mode = s.test.operand, 'value'
-        if call is None:
-            return None
-        r = self.resolve_call(mname, cname, fdef, call)
+        r = self.resolve_call(mname, cname, fdef, call) if call is not None else None
         if not r:
-            return None
+            return self._hoist_nested(mname, cname, fdef, s)
         tdef, recv, tm, tc = r
         keep = ()
         if mode == 'value' and isinstance(s, ast.Assign) and len(s.targets) == 1 and self._simple_target(s.targets[0]):
@@ -643,13 +695,124 @@ class Expander:
             s.value = res
         return stmts + [s]
 
+    # a helper call nested inside the statement's expression, evaluated unconditionally and before anything with an effect:
+    # `merge.extend(self._pairs(node))`  ->  `r = <body of _pairs>; merge.extend(r)`
+    def _hoist_nested(self, mname, cname, fdef, s):
+        if isinstance(s, (ast.Expr, ast.Return, ast.Assign, ast.AnnAssign)):
+            root = s.value
+        elif isinstance(s, ast.AugAssign) and isinstance(s.target, ast.Name):
+            root = s.value
+        elif isinstance(s, ast.If):
+            root = s.test
+        elif isinstance(s, ast.For):
+            root = s.iter
+        elif isinstance(s, ast.Raise):
+            root = s.exc
+        else:
+            return None
+        if root is None:
+            return None
+        state = {'open': True, 'found': None, 'loaded_attrs': set(), 'loaded_names': set()}
+
+        def visit(e):
+            if not state['open'] or state['found'] is not None or e is None:
+                return
+            if isinstance(e, ast.Constant):
+                return
+            if isinstance(e, ast.Name):
+                state['loaded_names'].add(e.id)
+                return
+            if isinstance(e, ast.Attribute):
+                visit(e.value)
+                state['loaded_attrs'].add(e.attr)
+                return
+            if isinstance(e, ast.Call):
+                visit(e.func)
+                for a in e.args:
+                    visit(a.value if isinstance(a, ast.Starred) else a)
+                for k in e.keywords:
+                    visit(k.value)
+                if not state['open'] or state['found'] is not None:
+                    return
+                if e is not root or not isinstance(s, (ast.Expr, ast.Return, ast.Assign, ast.AnnAssign, ast.AugAssign)):
+                    r = self.resolve_call(mname, cname, fdef, e)
+                    if r:
+                        state['found'] = (e, r)
+                        return
+                state['open'] = False
+                return
+            if isinstance(e, (ast.BinOp,)):
+                visit(e.left)
+                visit(e.right)
+                return
+            if isinstance(e, ast.UnaryOp):
+                visit(e.operand)
+                return
+            if isinstance(e, ast.Compare):
+                visit(e.left)
+                if len(e.comparators) == 1:
+                    visit(e.comparators[0])
+                else:
+                    state['open'] = False
+                return
+            if isinstance(e, ast.Subscript):
+                visit(e.value)
+                if isinstance(e.slice, ast.Slice):
+                    for x in (e.slice.lower, e.slice.upper, e.slice.step):
+                        visit(x)
+                else:
+                    visit(e.slice)
+                return
+            if isinstance(e, (ast.Tuple, ast.List, ast.Set)):
+                for x in e.elts:
+                    visit(x)
+                return
+            if isinstance(e, ast.BoolOp):
+                visit(e.values[0])
+                state['open'] = False
+                return
+            if isinstance(e, ast.IfExp):
+                visit(e.test)
+                state['open'] = False
+                return
+            state['open'] = False
+
+        visit(root)
+        if state['found'] is None:
+            return None
+        call, (tdef, recv, tm, tc) = state['found']
+        # what was loaded before the call must not be something the helper rebinds
+        stored_attrs = {x.attr for x in _walk_no_nested(tdef.body) if isinstance(x, ast.Attribute) and isinstance(x.ctx, (ast.Store, ast.Del))}
+        if stored_attrs & state['loaded_attrs']:
+            return None
+        if any(isinstance(x, (ast.Global, ast.Nonlocal)) for x in _walk_no_nested(tdef.body)):
+            return None
+        built = self.build_inline(fdef, call, tdef, recv, 'value')
+        if built is None:
+            self.stats['skipped'].append('%s.%s -> %s (nested)' % (mname, fdef.name, tdef.name))
+            return None
+        stmts, res = built
+        self.stats['inlined_calls'] += 1
+        self.stats['inlined_helpers'].add('%s.%s%s' % (tm, (tc + '.') if tc else '', tdef.name))
+
+        class Rep(ast.NodeTransformer):
+            def visit_Call(self, node):
+                if node is call:
+                    return ast.copy_location(res, node)
+                return self.generic_visit(node)
+        for fld in ('value', 'test', 'iter', 'exc'):
+            v = getattr(s, fld, None)
+            if isinstance(v, ast.AST) and any(x is call for x in ast.walk(v)):
+                setattr(s, fld, Rep().visit(v))
+        return stmts + [s]
+
     def _drop_self_assign(self, stmts):
         out = []
         for s in stmts:
             if isinstance(s, ast.Assign) and len(s.targets) == 1 and \
                     ast.dump(s.targets[0]).replace('Store()', 'Load()') == ast.dump(s.value):
                 continue
-            if isinstance(s, ast.If):
+            if isinstance(s, (ast.If, ast.For, ast.While)):
                 s.body = self._drop_self_assign(s.body) or [ast.copy_location(ast.Pass(), s)]
                 s.orelse = self._drop_self_assign(s.orelse)
             out.append(s)
@@ -668,7 +831,7 @@ class Expander:
         for s in stmts:
             if isinstance(s, ast.Assign) and isinstance(s.targets[0], ast.Name) and s.targets[0].id == rname:
                 s.targets = [copy.deepcopy(target)]
-            elif isinstance(s, ast.If):
+            elif isinstance(s, (ast.If, ast.For, ast.While)):
                 self._retarget(s.body, rname, target)
                 self._retarget(s.orelse, rname, target)
 
@@ -840,6 +1003,183 @@ class Expander:
                 t = T()
                 fdef.body = [t.visit(s) for s in fdef.body]
 
+    # ------------------------------------------------------------------ dispatch tables
+    def const_dicts(self):
+        """name -> ast.Dict for class-/module-level names bound exactly once in the package to a dict display with constant
+        keys and constant values, never written through (no subscript store, no mutating call, no attribute rebind)."""
+        binds = {}
+        bodies = [cdef.body for cdef in self.classes.values()] + [list(self._toplevel(m.tree.body)) for m in self.modules.values()]
+        for body in bodies:
+            for st in body:
+                if isinstance(st, ast.Assign):
+                    for t in st.targets:
+                        for x in ast.walk(t):
+                            if isinstance(x, ast.Name):
+                                binds.setdefault(x.id, []).append(st.value if (len(st.targets) == 1 and isinstance(t, ast.Name)) else None)
+                elif isinstance(st, (ast.AugAssign, ast.AnnAssign)) and isinstance(st.target, ast.Name):
+                    binds.setdefault(st.target.id, []).append(None)
+        touched = set()
+        for m in self.modules.values():
+            for n in ast.walk(m.tree):
+                if isinstance(n, ast.Attribute) and isinstance(n.ctx, (ast.Store, ast.Del)):
+                    touched.add(n.attr)
+                if isinstance(n, (ast.Subscript,)) and isinstance(n.ctx, (ast.Store, ast.Del)):
+                    b = n.value
+                    touched.add(b.attr if isinstance(b, ast.Attribute) else b.id if isinstance(b, ast.Name) else '')
+                if isinstance(n, ast.Call) and isinstance(n.func, ast.Attribute) and n.func.attr in (
+                        'update', 'pop', 'popitem', 'clear', 'setdefault', '__setitem__', '__delitem__'):
+                    b = n.func.value
+                    touched.add(b.attr if isinstance(b, ast.Attribute) else b.id if isinstance(b, ast.Name) else '')
+                if isinstance(n, ast.Call) and isinstance(n.func, ast.Name) and n.func.id in ('setattr', 'delattr'):
+                    touched.add('*')
+        out = {}
+        for k, v in binds.items():
+            if len(v) == 1 and isinstance(v[0], ast.Dict) and v[0].keys and k not in touched and not k.startswith('yaml_') \
+                    and all(isinstance(x, ast.Constant) for x in v[0].keys) and all(isinstance(x, ast.Constant) for x in v[0].values):
+                out[k] = v[0]
+        return out
+
+    def expand_dispatch(self):
+        """`n = T.get(K)` + `if n is not None: A else: B`  (T a constant table)  ->  `if K == k1: n = v1; A[n:=v1] elif ... else: n = None; B`
+        and `if K in T: A` -> the same chain with T[K] replaced by the value."""
+        tables = self.const_dicts()
+        if not tables:
+            return
+        exp = self
+
+        def table_of(e, first):
+            if isinstance(e, ast.Name) and e.id in tables:
+                return tables[e.id]
+            if isinstance(e, ast.Attribute) and e.attr in tables and isinstance(e.value, ast.Name) and (
+                    e.value.id in first or exp._find_class(cur['m'], e.value.id, set())):
+                return tables[e.attr]
+            if isinstance(e, ast.Attribute) and e.attr in tables and isinstance(e.value, ast.Attribute) \
+                    and e.value.attr == '__class__':
+                return tables[e.attr]
+            return None
+
+        def pure(e):
+            return isinstance(e, (ast.Name, ast.Constant)) or (isinstance(e, ast.Attribute) and exp._pure_chain(e))
+
+        def chain(key, table, make_body, orelse, at):
+            """if key == k1: body(k1, v1) elif ... else: orelse"""
+            cur_else = orelse
+            for k, v in reversed(list(zip(table.keys, table.values))):
+                test = ast.Compare(left=copy.deepcopy(key), ops=[ast.Eq()], comparators=[copy.deepcopy(k)])
+                node = ast.If(test=test, body=make_body(k, v) or [ast.Pass()], orelse=cur_else)
+                ast.copy_location(node, at)
+                cur_else = [node]
+            return cur_else
+
+        class Sub(ast.NodeTransformer):
+            def __init__(self, pred, value):
+                self.pred, self.value = pred, value
+
+            def generic_visit(self, node):
+                if isinstance(node, (ast.FunctionDef, ast.Lambda, ast.ClassDef)):
+                    return node
+                return super().generic_visit(node)
+
+            def visit(self, node):
+                if self.pred(node):
+                    return ast.copy_location(copy.deepcopy(self.value), node)
+                return super().visit(node)
+
+        def rewrite(stmts, first):
+            out = []
+            i = 0
+            changed = False
+            while i < len(stmts):
+                s = stmts[i]
+                for sub in ('body', 'orelse', 'finalbody'):
+                    if isinstance(getattr(s, sub, None), list) and not isinstance(s, (ast.FunctionDef, ast.ClassDef)):
+                        nb, c = rewrite(getattr(s, sub), first)
+                        setattr(s, sub, nb)
+                        changed |= c
+                for h in getattr(s, 'handlers', []) or []:
+                    h.body, c = rewrite(h.body, first)
+                    changed |= c
+                nxt = stmts[i + 1] if i + 1 < len(stmts) else None
+                # form A
+                if isinstance(s, ast.Assign) and len(s.targets) == 1 and isinstance(s.targets[0], ast.Name) \
+                        and isinstance(s.value, ast.Call) and isinstance(s.value.func, ast.Attribute) and s.value.func.attr == 'get' \
+                        and len(s.value.args) == 1 and not s.value.keywords and pure(s.value.args[0]) \
+                        and isinstance(nxt, ast.If):
+                    table = table_of(s.value.func.value, first)
+                    name = s.targets[0].id
+                    t = nxt.test
+                    pos = None
+                    if isinstance(t, ast.Name) and t.id == name and table is not None and all(x.value for x in table.values):
+                        pos = True
+                    elif isinstance(t, ast.UnaryOp) and isinstance(t.op, ast.Not) and isinstance(t.operand, ast.Name) \
+                            and t.operand.id == name and table is not None and all(x.value for x in table.values):
+                        pos = False
+                    elif isinstance(t, ast.Compare) and len(t.ops) == 1 and isinstance(t.left, ast.Name) and t.left.id == name \
+                            and isinstance(t.comparators[0], ast.Constant) and t.comparators[0].value is None \
+                            and isinstance(t.ops[0], (ast.Is, ast.IsNot)):
+                        pos = isinstance(t.ops[0], ast.IsNot)
+                    key = s.value.args[0]
+                    key_names = {x.id for x in ast.walk(key) if isinstance(x, ast.Name)}
+                    if table is not None and pos is not None and name not in key_names \
+                            and not any(x.value is None for x in table.values):
+                        hit, miss = (nxt.body, nxt.orelse) if pos else (nxt.orelse, nxt.body)
+
+                        def make_body(k, v, hit=hit, name=name):
+                            body = [ast.Assign(targets=[ast.Name(id=name, ctx=ast.Store())], value=copy.deepcopy(v), lineno=s.lineno, col_offset=0)]
+                            for h in copy.deepcopy(hit):
+                                body.append(Sub(lambda n: isinstance(n, ast.Name) and n.id == name and isinstance(n.ctx, ast.Load), v).visit(h))
+                            return body
+                        stored_in_hit = any(isinstance(x, ast.Name) and x.id == name and isinstance(x.ctx, ast.Store)
+                                            for x in _walk_no_nested(list(hit)))
+                        if not stored_in_hit:
+                            orelse = [ast.Assign(targets=[ast.Name(id=name, ctx=ast.Store())], value=ast.Constant(None),
+                                                 lineno=s.lineno, col_offset=0)] + list(miss)
+                            new = chain(key, table, make_body, orelse, nxt)
+                            for n2 in new:
+                                ast.fix_missing_locations(n2)
+                            out.extend(new)
+                            exp.stats['dispatch'] = exp.stats.get('dispatch', 0) + 1
+                            i += 2
+                            changed = True
+                            continue
+                # form B
+                if isinstance(s, ast.If) and isinstance(s.test, ast.Compare) and len(s.test.ops) == 1 \
+                        and isinstance(s.test.ops[0], (ast.In, ast.NotIn)) and pure(s.test.left):
+                    table = table_of(s.test.comparators[0], first)
+                    if table is not None:
+                        key = s.test.left
+                        ttxt = ast.dump(s.test.comparators[0])
+                        ktxt = ast.dump(key)
+                        pos = isinstance(s.test.ops[0], ast.In)
+                        hit, miss = (s.body, s.orelse) if pos else (s.orelse, s.body)
+
+                        def is_lookup(n, ttxt=ttxt, ktxt=ktxt):
+                            return isinstance(n, ast.Subscript) and isinstance(n.ctx, ast.Load) and ast.dump(n.value) == ttxt \
+                                and ast.dump(n.slice) == ktxt
+
+                        def make_body(k, v, hit=hit):
+                            return [Sub(is_lookup, v).visit(h) for h in copy.deepcopy(hit)]
+                        key_stored = any(isinstance(x, ast.Name) and isinstance(x.ctx, ast.Store) and x.id in
+                                         {y.id for y in ast.walk(key) if isinstance(y, ast.Name)} for x in _walk_no_nested(list(hit)))
+                        if hit and not key_stored and (pos or s.orelse):
+                            new = chain(key, table, make_body, list(miss), s)
+                            for n2 in new:
+                                ast.fix_missing_locations(n2)
+                            out.extend(new)
+                            exp.stats['dispatch'] = exp.stats.get('dispatch', 0) + 1
+                            i += 1
+                            changed = True
+                            continue
+                out.append(s)
+                i += 1
+            return out, changed
+
+        cur = {'m': None}
+        for mname, m in self.modules.items():
+            cur['m'] = mname
+            for fdef in [n for n in ast.walk(m.tree) if isinstance(n, ast.FunctionDef)]:
+                fdef.body, _ = rewrite(fdef.body, _params(fdef)[:1])
+
     def substitute_local_literals(self):
         for m in self.modules.values():
             for fdef in [n for n in ast.walk(m.tree) if isinstance(n, ast.FunctionDef)]:
@@ -886,6 +1226,7 @@ class Expander:
     def run(self):
         self.collect()
         self.substitute_constants()
+        self.expand_dispatch()
         for rnd in range(MAX_ROUNDS):
             changed = False
             for mname, m in self.modules.items():
